@@ -249,7 +249,7 @@ func (en *Env) eval(ex Expr) TV {
 		if v.Forall {
 			return TV{V: VScalar{flattenForall(bound, body)}, T: types.Typ[types.Bool]}
 		}
-		return TV{V: VScalar{Exists(bound, body)}, T: types.Typ[types.Bool]}
+		return TV{V: VScalar{Exists(bound, absolutize(bound, body))}, T: types.Typ[types.Bool]}
 	}
 	en.fail("unsupported expression %v", ex)
 	return TV{}
